@@ -33,23 +33,22 @@ def step? : List String → Option String
       | some p => okBytes p
       | none => "panic"
     | none => "bad-op"
-  | ["jpg-fdct", hx] => some <| match Dct.fdct (bytesI hx).toArray with
-    | some c => okInts c.toList
-    | none => "panic"
+  | ["jpg-fdct", hx] => some <|
+    let a := (bytesI hx).toArray
+    if a.size != 64 then "panic" else okInts (Dct.listOfBlk (Dct.fdctF (Dct.blkOfArray a)))
   | ["jpg-idct", cs, qs] => some <| match parseInts cs, parseInts qs with
-    | some c, some q => match Dct.idct c.toArray q.toArray with
-      | some o => okBytes o.toList
-      | none => "panic"
+    | some c, some q =>
+      if c.length != 64 || q.length != 64 then "panic" else
+      okBytes (Dct.listOfBlk (Dct.idctF (Dct.blkOfArray c.toArray) (Dct.tableF q.toArray)))
     | _, _ => "bad-op"
   | ["jpg-blockbound", b, q, hx] => some <| match nats? [b, q] with
     | some [b, q] =>
-      let tab := Dct.scaleQuantTable (if b == 0 then Gen.JpegStd.DefaultLuminanceQuantTable else Gen.JpegStd.DefaultChrominanceQuantTable) q
-      let blk := (bytesI hx).toArray
-      match Dct.blockRoundTrip blk tab with
-      | some o => if (List.range 64).all (fun i => match o[i]?, blk[i]? with
-                      | some a, some b => Dct.withinBound (a - b) tab
-                      | _, _ => false) then "ok true" else "ok false"
-      | none => "panic"
+      let tab := Dct.tableF (Dct.scaleQuantTable (if b == 0 then Gen.JpegStd.DefaultLuminanceQuantTable else Gen.JpegStd.DefaultChrominanceQuantTable) q)
+      let a := (bytesI hx).toArray
+      if a.size != 64 then "panic" else
+      let blk := Dct.blkOfArray a
+      let out := Dct.blockF blk tab
+      if (List.range 64).all (fun i => decide (Dct.withinF (out (i / 8) (i % 8) - blk (i / 8) (i % 8)) tab)) then "ok true" else "ok false"
     | _ => "bad-op"
   | ["jpg-clamp", v, lo, hi] => some <| match ints? [v, lo, hi] with
     | some [v, lo, hi] => s!"ok {Gen.JpegStd.Clamp v lo hi}"
@@ -101,9 +100,7 @@ def step? : List String → Option String
           let v ← zz[k]?
           Dct.setI a z v) (some (Array.replicate 64 0))
         match coef with
-        | some c => match Dct.idct c (Array.replicate 64 1) with
-          | some o => okBytes o.toList
-          | none => "panic"
+        | some c => okBytes (Dct.listOfBlk (Dct.idctF (Dct.blkOfArray c) (fun _ _ => 1)))
         | none => "panic"
     | _, _ => "bad-op"
   | ["jpg-acsyms", acs] => some <| match parseInts acs with
